@@ -14,6 +14,10 @@
     simple term definitions, expanded term definitions with `@id`, `@type` (`@id`, `@vocab`, a datatype),
     `@container` (`@list`, `@set`, `@language`), `@language`; compact-IRI terms; dependencies between the
     terms of one context.
+  * context inheritance: an `@context` member of any node object (top level, embedded, member of `@graph`)
+    is processed on top of the active context it inherits (`nodeHead`: `processLocal c cj`), so inherited
+    term definitions, `@base`, `@vocab` and the default `@language` stay in force unless overridden
+    (`"@language": null` resets the default language; `"@context": null` resets everything);
   * node objects (`@id`, `@type`, properties, embedded `@context`), embedded node objects, value objects
     (`@value`/`@type`/`@language`), list objects and list containers, language maps, `@graph` (default
     graph at the top level, named graphs), native numbers and booleans, blank node identifiers, relative
